@@ -91,6 +91,17 @@ let rec put_json = function
   | JArr l -> L (A "a" :: List.map put_json l)
   | JObj l -> L (A "o" :: List.map (fun (k, v) -> L [put_bytes k; put_json v]) l)
 
+(* ---- case model (C18) ---- *)
+let style_names = ["Snake", Snake; "Kebab", Kebab; "Camel", Camel; "Pascal", Pascal;
+  "ScreamingSnake", ScreamingSnake; "Title", Title; "Train", Train; "ScreamingTrain", ScreamingTrain;
+  "Dot", Dot; "LowerFlat", LowerFlat; "UpperFlat", UpperFlat; "Sentence", Sentence;
+  "LowerSentence", LowerSentence; "UpperSentence", UpperSentence]
+let get_style x = List.assoc (get_atom x) style_names
+let put_style s = A (fst (List.find (fun (_, v) -> v = s) style_names))
+let get_acr = function A "default" -> gen_acronyms | x -> get_list get_bytes x
+let get_oracle x = get_list (function L [k; v] -> (get_bytes k, get_bytes v) | _ -> failwith "kv") x
+let put_amap m = L (List.map (fun (k, v) -> L [put_bytes k; put_bytes v]) m)
+
 let dispatch (req : Sexp.t) : Sexp.t =
   match req with
   | L (A op :: args) -> begin
@@ -99,6 +110,21 @@ let dispatch (req : Sexp.t) : Sexp.t =
       | "splice", [orig; es] ->
         let orig = get_bytes orig and es = get_list get_edit es in
         L [put_res put_bytes (apply_edits_rev orig es); put_bool (wf_edits orig es); put_bytes (spec_splice orig es)]
+      | "tokens", [acr; s] ->
+        put_opt (put_list put_bytes) (parse_to_tokens (get_acr acr) (get_bytes s))
+      | "to_style", [acr; ws; st] ->
+        put_bytes (to_style (get_acr acr) (get_list get_bytes ws) (get_style st))
+      | "detect_style", [acr; s] ->
+        put_opt put_style (detect_style (get_acr acr) (get_bytes s))
+      | "vmap_core", [acr; sing; plur; plurals; amb; search; repl; styles] ->
+        put_amap (variant_map_core (get_acr acr) gen_vm_core_default (get_oracle sing) (get_oracle plur)
+                    (get_bool plurals) (get_bool amb) (get_bytes search) (get_bytes repl)
+                    (get_opt (get_list get_style) styles))
+      | "vmap_scan", [acr; sing; plur; plurals; search; repl; styles] ->
+        put_amap (vmap_to_amap (variant_map_scanner (get_acr acr) gen_acronyms gen_vm_scanner_default
+                    (get_oracle sing) (get_oracle plur)
+                    (get_bool plurals) (get_bytes search) (get_bytes repl)
+                    (get_opt (get_list get_style) styles)))
       | "serde_plan", [p] ->
         let p = get_plan p in
         let j = enc_plan p in
